@@ -460,6 +460,23 @@ class C11(Prop):
             for i in idxs:
                 cases.append(Case('i%d_%d' % (n, i), b'$[%d]' % i, [('a', [('n', float(k)) for k in range(n)])]))
                 expect.append(py_index_ref(n, i))
+        # the same subscript node applied to several arrays in one retrieval (and twice by one parsed function)
+        g2 = gens.G(ctx.seed * 3 + seed_offset + 11)
+        for k in range(ctx.n(600, 6000) * budget_scale):
+            doc, steps = gens.nested_arrays_family(g2)
+            if steps[0][0] not in ('wild',) or doc[0] != 'a':
+                continue
+            sub = steps[1][1][0]
+            if len(steps[1][1]) != 1:
+                continue
+            want = []
+            for arr in doc[1]:
+                n_ = len(arr[1])
+                vals = [x[1] for x in arr[1]]
+                idx = py_index_ref(n_, sub[1]) if sub[0] == 'idx' else py_slice_ref(n_, sub[1], sub[2], 1 if sub[3] in ('absent', None) else sub[3])
+                want += [vals[j] for j in idx]
+            cases.append(Case('n%d' % k, gens.render_path(steps), [doc, doc]))
+            expect.append(want if True else None)
         go, mo = both_sides(cases)
         for c, g, m, want in zip(cases, go, mo, expect):
             res.evaluations += 1
@@ -471,9 +488,12 @@ class C11(Prop):
             if want is not None:
                 exp = 'ok:[' + ','.join(core.render_num(float(i)) for i in want) + ']' if want else 'mne'
                 got = gr if gr.startswith('ok:') else cls_of(gr)
+                if len(c.docs) == 2 and g.get('R1') != g.get('R0'):
+                    res.violation('concrete', sig_of(c, 'slice-history'), 'the second call of the parsed function %r selects differently' % (c.path,), c,
+                                  expected=g.get('R0'), observed=g.get('R1'))
                 if got != exp:
                     res.violation('concrete', sig_of(c, 'slice-differs-from-python'),
-                                  '%r on an array of %d elements: Python selects %s' % (c.path, len(c.docs[0][1]), want), c,
+                                  '%r on %s: Python selects %s' % (c.path, core.doc_json_text(c.docs[0])[:80], want), c,
                                   expected=exp, observed=gr)
                 if want or (len(c.docs[0][1]) > 0):
                     res.nontrivial.add((c.path, len(c.docs[0][1])))
@@ -509,6 +529,26 @@ def mutate_doc(r, d, p=0.3):
             return ('b', not d[1])
         return r.choice([('z',), ('n', 1.0), ('s', b'x')])
     return d
+
+
+def reroll_refs(r, d):
+    """the same document with its top-level scalars replaced by scalars found among the members' values"""
+    if d[0] != 'o':
+        return d
+    pool = []
+
+    def walk(x):
+        if x[0] == 'a':
+            for y in x[1]:
+                walk(y)
+        elif x[0] == 'o':
+            for _, y in x[1]:
+                walk(y)
+        else:
+            pool.append(x)
+    walk(d)
+    pool = pool or [('n', 1.0)]
+    return ('o', [(k, (r.choice(pool) if v[0] not in ('a', 'o') and r.random() < 0.8 else v)) for k, v in d[1]])
 
 
 def hist_json(cid, ops):
@@ -547,12 +587,15 @@ class C05(Prop):
         n = ctx.n(600, 12000) * budget_scale
         base = load_corpus(self.id, ctx.root) if seed_offset == 0 else []
         for i in range(n):
-            c = mk_eval_cases(g, 1, 'h%d_' % i, funcs=0.3, acc=0.1, jnum=0.2, filter_heavy=0.7)[0]
+            c = mk_eval_cases(g, 1, 'h%d_' % i, funcs=0.3, acc=0.1, jnum=0.2, filter_heavy=0.7, families=0.4)[0]
             d0 = c.docs[0]
             docs = [d0]
             for _ in range(r.randint(2, 7)):
                 k = r.random()
-                docs.append(mutate_doc(r, d0) if k < 0.6 else (d0 if k < 0.8 else g.doc(3, False, 0)))
+                if c.meta.get('family') == 'refs' and k < 0.7:
+                    docs.append(reroll_refs(r, d0))
+                else:
+                    docs.append(mutate_doc(r, d0) if k < 0.6 else (d0 if k < 0.8 else g.doc(3, False, 0)))
             c.docs = docs
             base.append(c)
         raws = []
@@ -895,6 +938,10 @@ class C08(Prop):
             f, a = gens.funcs_used(steps)
             for k in range(1, len(steps)):
                 items.append((doc, steps[:k], steps[k:], f))
+        for i in range(n // 4):
+            doc, steps = gens.nested_arrays_family(g)
+            for k in range(1, len(steps)):
+                items.append((doc, steps[:k], steps[k:], []))
         corpus = load_corpus(self.id, ctx.root) if seed_offset == 0 else []
         whole = [Case('w%d' % i, gens.render_path(p + q), [doc], f, []) for i, (doc, p, q, f) in enumerate(items)]
         pre = [Case('p%d' % i, gens.render_path(p), [doc], f, []) for i, (doc, p, q, f) in enumerate(items)]
@@ -1043,12 +1090,30 @@ class C09(Prop):
                 kind = 'cmp:%s:%s' % (lhs[0], rhs[0])
                 exprs['_numlit'] = (lhs[0] == 'lit' and lhs[1][0] == 'n') or (rhs[0] == 'lit' and rhs[1][0] == 'n')
             fams.append((doc, kind, exprs))
+        # families from the reference-value generator: comparisons that really hit
+        for i in range(n // 3):
+            doc, es = gens.refs_family(g, r.random() < 0.15)
+            e = r.choice(es)
+            m = re.match(rb'(.+?) (==|!=|<=|>=|<|>) (.+)$', e)
+            if m and b'&&' not in e and b'||' not in e:
+                L, R = m.group(1), m.group(3)
+                exprs = {}
+                for o in ('==', '!=', '<', '<=', '>', '>='):
+                    exprs['l' + o] = L + b' ' + o.encode() + b' ' + R
+                    exprs['r' + o] = R + b' ' + o.encode() + b' ' + L
+                exprs['_numlit'] = bool(re.fullmatch(rb'-?[0-9.]+', L) or re.fullmatch(rb'-?[0-9.]+', R))
+                fams.append((doc, 'cmp:refs', exprs))
+            else:
+                B = r.choice(es)
+                fams.append((doc, 'andor', {'A': e, 'B': B, 'and': b'(' + e + b') && (' + B + b')', 'or': b'(' + e + b') || (' + B + b')'}))
         cases, index = [], []
         for fi, (doc, kind, exprs) in enumerate(fams):
+            doc2 = reroll_refs(r, doc)          # a second document for the SAME parsed function
+            fams[fi] = (doc, kind, exprs, doc2)
             for name, e in exprs.items():
                 if name.startswith('_'):
                     continue
-                cases.append(Case('f%d_%s' % (fi, name), b'$.list[?(' + e + b')]', [doc]))
+                cases.append(Case('f%d_%s' % (fi, name), b'$.list[?(' + e + b')]', [doc, doc2]))
                 index.append((fi, name))
         corpus = load_corpus(self.id, ctx.root) if seed_offset == 0 else []
         go, mo = both_sides(cases + corpus)
@@ -1059,20 +1124,22 @@ class C09(Prop):
             if hp:
                 res.violation('broken-correspondence', 'harness:' + hp[:60], hp, c)
                 continue
-            a = g_.get('R0', 'P:' + g_.get('P', ''))
-            b = m.get('R0', 'P:' + m.get('P', ''))
-            if (a if a.startswith('ok:') else cls_of(a)) != (b if b.startswith('ok:') else cls_of(b)):
-                res.disagreements_checked += 1
-                res.violation('concrete', sig_of(c, 'filter-vs-model'), 'selection of %r differs from the model' % (c.path,), c, expected=b, observed=a)
-            if crashy(a) or crashy(g_.get('P', 'ok')):
-                res.violation('concrete', sig_of(c, 'filter-crash'), 'outcome %s for %r' % (a[:100], c.path), c, observed=a)
-            if ix is not None:
-                sel[ix[0]][ix[1]] = selection(a) if g_.get('P') == 'ok' else None
-                sel[ix[0]]['case:' + ix[1]] = c
-        for fi, (doc, kind, exprs) in enumerate(fams):
-            s = sel.get(fi, {})
-            members = [core.doc_render(m) for m in (doc[1][0][1][1] if doc[1][0][1][0] == 'a' else
-                                                    [v for _, v in sorted(doc[1][0][1][1])])]
+            for di in range(len(c.docs)):
+                a = g_.get('R%d' % di, 'P:' + g_.get('P', ''))
+                b = m.get('R%d' % di, 'P:' + m.get('P', ''))
+                if (a if a.startswith('ok:') else cls_of(a)) != (b if b.startswith('ok:') else cls_of(b)):
+                    res.disagreements_checked += 1
+                    res.violation('concrete', sig_of(c, 'filter-vs-model'), 'selection of %r differs from the model (document %d)' % (c.path, di), c, expected=b, observed=a)
+                if crashy(a) or crashy(g_.get('P', 'ok')):
+                    res.violation('concrete', sig_of(c, 'filter-crash'), 'outcome %s for %r' % (a[:100], c.path), c, observed=a)
+                if ix is not None:
+                    sel[(ix[0], di)][ix[1]] = selection(a) if g_.get('P') == 'ok' else None
+                    sel[(ix[0], di)]['case:' + ix[1]] = c
+        for fi, (doc0, kind, exprs, doc2) in enumerate(fams):
+          for di, doc in enumerate((doc0, doc2)):
+            s = sel.get((fi, di), {})
+            lst = [v for k, v in doc[1] if k == b'list'][0] if doc[0] == 'o' else ('a', [])
+            members = [core.doc_render(m) for m in (lst[1] if lst[0] == 'a' else [v for _, v in sorted(lst[1])])]
 
             def order(xs):
                 return [m for m in members if m in set(xs)]
@@ -1082,13 +1149,15 @@ class C09(Prop):
                     return
                 if got != want:
                     res.violation('concrete', sig_of(s['case:' + name], 'boolean-algebra:' + what),
-                                  '%s violated by %r' % (what, s['case:' + name].path), s['case:' + name], expected=want, observed=got)
+                                  '%s violated by %r (document %d of the parsed function)' % (what, s['case:' + name].path, di), s['case:' + name], expected=want, observed=got,
+                                  extra={'doc_index': di})
                 elif len(members) >= 2 and 0 < len(got) < len(members):
                     res.nontrivial.add((s['case:' + name].path, core.doc_render(doc)))
                     if len(res.samples) < 6:
                         res.sample({'law': what, 'filter': s['case:' + name].path.decode('utf-8', 'replace'),
                                     'members': len(members), 'selected': len(got)})
-            res.dist[kind.split(':')[0]] += 1
+            if di == 0:
+                res.dist[kind] += 1
             if kind == 'andor':
                 A, B = s.get('A'), s.get('B')
                 if A is not None and B is not None:
@@ -1118,8 +1187,9 @@ class C09(Prop):
         if 'expected' in v and isinstance(v['expected'], list):
             c = case_from_desc(v['case'])
             g_ = core.run_go([c])[0]
-            if selection(g_.get('R0', '')) != v['expected']:
-                res.violation('concrete', 'replay', 'the set identity still fails: selected %s, identity requires %s' % (selection(g_.get('R0', '')), v['expected']), c)
+            k = 'R%d' % v.get('doc_index', 0)
+            if selection(g_.get(k, '')) != v['expected']:
+                res.violation('concrete', 'replay', 'the set identity still fails: selected %s, identity requires %s' % (selection(g_.get(k, '')), v['expected']), c)
 
 
 # =======================================================================================
@@ -1174,6 +1244,10 @@ class C10(Prop):
                 info = None
             cases.append(Case('t%d' % i, b'$.list[?(' + text + b')]', [doc, to_jnum(doc)]))
             meta.append((info, ms))
+        for i in range(n // 2):
+            doc, es = gens.refs_family(g, False)
+            cases.append(Case('r%d' % i, b'$.list[?(' + r.choice(es) + b')]', [doc, to_jnum(doc)]))
+            meta.append((None, []))
         go, mo = both_sides(cases)
         for c, g_, m, mt in zip(cases, go, mo, meta):
             res.evaluations += 1
